@@ -1,6 +1,6 @@
 """C05 End of input is always detected; a truncated file yields only complete blocks (necessary conditions)."""
 from .. import ir, decoder, callgraph
-from ..ir import path, unwrap, callee_name, callee_qn, show
+from ..ir import path, path_str, unwrap, callee_name, callee_qn, show
 from ..facts import AnalysisBroken
 
 META = {
@@ -289,6 +289,124 @@ def check_window_state(run, rule):
     run.floor(rule, 1, "window-derived members")
 
 
+def _paths(stmts_, limit=64):
+    """paths through a loop-free statement list: each a list of ('stmt', node) / ('cond', node, taken) events ending with a
+    Return node or falling off the end; None when a loop / switch / try is met or there are too many paths"""
+    out = []
+
+    class TooHard(Exception):
+        pass
+
+    def go(lst, acc):
+        if not lst:
+            return [acc]
+        st, rest = lst[0], lst[1:]
+        k = st.get("k") if isinstance(st, dict) else None
+        if k == "Block":
+            return go(list(st.get("s", [])) + rest, acc)
+        if k == "If":
+            if st.get("condvar") is not None:
+                raise TooHard()
+            r = []
+            r += go(ir.stmts(st.get("then")) + rest, acc + [("cond", st.get("cond"), True)])
+            r += go((ir.stmts(st.get("else")) if st.get("else") is not None else []) + rest, acc + [("cond", st.get("cond"), False)])
+            if len(r) > limit:
+                raise TooHard()
+            return r
+        if k == "Return":
+            return [acc + [("return", st)]]
+        if k == "Throw" or (k is not None and ir.always_leaves(st) and not any(x.get("k") == "Return" for x in ir.walk(st))):
+            return [acc + [("throw", st)]]
+        if k in ("While", "For", "Do", "RangeFor", "Switch", "Try", "Break", "Continue", "Goto", "Label"):
+            raise TooHard()
+        return go(rest, acc + [("stmt", st)])
+    try:
+        return go(list(stmts_), [])
+    except TooHard:
+        return None
+
+
+def check_block_protocol(run, rule):
+    """CdnsReader::read_block(eof): over every path through the function
+      * a path that decodes a block (calls CdnsBlockRead::read) leaves `eof` false, every other returning path leaves it true;
+      * a path that decodes a block counts it (one member incremented), and that member is what an end path compares with
+        the declared count - a definite-length block array ends where an indefinite one would.
+    The function is small and loop-free; any other shape is answered `unrecognised`."""
+    facts = run.facts
+    rb = facts.fn("CDNS::CdnsReader::read_block", rule=rule)
+    if not rb.get("params"):
+        run.ob(rule, "read_block:protocol", None, rb, rb["line"], "read_block has no end-of-input parameter")
+        return
+    flag = "p:%s" % rb["params"][0]["n"]
+    paths = _paths(ir.stmts(rb["body"]))
+    if paths is None:
+        run.ob(rule, "read_block:protocol", None, rb, rb["line"], "read_block is not a small loop-free function any more")
+        return
+    n = 0
+    counted = []
+    end_guards = []
+    for pth in paths:
+        if not pth or pth[-1][0] != "return":
+            continue
+        n += 1
+        reads = False
+        val = "unset"
+        incs = []
+        for ev in pth:
+            if ev[0] == "cond":
+                # a test of the flag itself tells its value on this path
+                c_ = ir.unwrap_all_casts(ev[1])
+                neg = False
+                while isinstance(c_, dict) and c_.get("k") == "Un" and c_.get("op") == "!":
+                    neg = not neg
+                    c_ = ir.unwrap_all_casts(c_.get("e"))
+                if isinstance(c_, dict) and path(c_) == (flag,):
+                    val = (ev[2] != neg)
+                continue
+            if ev[0] not in ("stmt", "return"):
+                continue
+            node = ev[1]
+            for x in ir.walk(node):
+                if x.get("k") in ("MCall", "Call") and callee_qn(x) == "CDNS::CdnsBlockRead::read":
+                    reads = True
+                if x.get("k") in ("MCall", "Call", "Construct") and (x.get("callee") or {}).get("inrepo") and \
+                        any(path(a) and path(a)[0] == flag for a in x.get("args", [])):
+                    val = "?"
+                if x.get("k") == "Bin" and x.get("op") == "=" and path(x.get("lhs")) == (flag,):
+                    cv = ir.const_value(x.get("rhs"))
+                    val = bool(cv) if cv is not None else "?"
+                if x.get("k") == "Un" and x.get("op") in ("pre++", "post++") and path(x.get("e")) and path(x["e"])[0] == "this":
+                    incs.append(path_str(path(x["e"])))
+                if x.get("k") == "Bin" and x.get("op") == "+=" and ir.const_value(x.get("rhs")) == 1 and path(x.get("lhs")) and path(x["lhs"])[0] == "this":
+                    incs.append(path_str(path(x["lhs"])))
+        line = pth[-1][1].get("l", rb["line"])
+        want = not reads
+        ok = None if val == "?" else (val == want) if val != "unset" else False
+        run.ob(rule, "read_block:path%d:%s" % (n, "decodes-a-block" if reads else "end-of-blocks"), ok, rb, line,
+               "eof is %s on the path that %s" % ("false" if reads else "true", "returns a decoded block" if reads else "finds no further block") if ok else
+               ("on the path that %s the end-of-input flag is %s: %s" % (
+                   "returns a decoded block" if reads else "finds no further block",
+                   "left as the caller passed it" if val == "unset" else str(val).lower(),
+                   "the caller takes a real block for the end of the file and stops" if reads else "the caller takes the empty block for a block of the file and goes on reading")))
+        if reads:
+            counted.append((incs, line))
+        else:
+            for ev in pth:
+                if ev[0] == "cond":
+                    for x in ir.walk(ev[1]):
+                        if x.get("k") == "Bin" and x.get("op") in ("==", ">=", "<=", "!=", "<", ">"):
+                            end_guards.append(show(x))
+    for incs, line in counted:
+        used = [m for m in incs if any(m.replace("this.", "this->") in g or m in g for g in end_guards)]
+        ok = len(incs) >= 1 and len(used) == 1 and incs.count(used[0]) == 1
+        run.ob(rule, "read_block:block-counted@%s" % line, ok, rb, line,
+               "the decoded block is counted in %s, which an end-of-blocks test compares with the declared count" % used[0] if ok else
+               "the path that decodes a block increments %s; the end-of-blocks tests are %s: a definite-length block array (RFC 8949 allows both "
+               "forms) is read past its end or cut short" % (incs or "nothing", end_guards or "none"))
+    if not counted:
+        run.ob(rule, "read_block:protocol", None, rb, rb["line"], "no path through read_block decodes a block")
+
+
 def check(run):
     # what the decoder remembers about the bytes in its window is dropped when the window is refilled
     from .. import derived as _derived
@@ -298,3 +416,4 @@ def check(run):
     check_refill(run, "R05.1")
     check_typestate(run, "R05.2")
     check_transparency(run, "R05.3")
+    check_block_protocol(run, "R05.7")
